@@ -96,6 +96,22 @@ theorem inv_step (s : St) (op : Op) (h : Inv s) : Inv (step s op) := by
     · obtain ⟨hw, hch, hscan, hsnap, hcont⟩ := hb
       exact ⟨n, hn, Or.inr ⟨j, k, hjk, ⟨hw, hch, by simp only [step]; rw [scan_delivers]; exact hscan, hsnap,
                     by simp only [step]; rw [succeeded_delivers]; exact hcont⟩⟩⟩
+  | retry i =>
+    rcases h with hi | ⟨j, k, hjk, hb⟩
+    · have : s.core.waiting ≠ some i := by rw [hi.waiting]; simp
+      simp only [step, this, if_false]; exact ⟨n, hn, Or.inl hi⟩
+    · obtain ⟨hw, hch, hscan, hsnap, hcont⟩ := hb
+      by_cases hij : i = j
+      · subst hij
+        simp only [step, if_pos hw]
+        refine ⟨n, hn, Or.inr ⟨i, k, hjk, ⟨hw, hch, ?_, rfl, ?_⟩⟩⟩
+        · show scan (s.core.log ++ [Ev.retry i]) (0, none) = some (i, some i)
+          rw [scan_append, hscan]; simp [scan]
+        · show s.core.content = succeeded (s.core.log ++ [Ev.retry i])
+          rw [succeeded_append]; simp [succeeded, hcont]
+      · have : s.core.waiting ≠ some i := by rw [hw]; simp; omega
+        simp only [step, this, if_false]
+        exact ⟨n, hn, Or.inr ⟨j, k, hjk, ⟨hw, hch, hscan, hsnap, hcont⟩⟩⟩
 
 theorem inv_foldl (ops : List Op) (s : St) (h : Inv s) : Inv (ops.foldl step s) := by
   induction ops generalizing s with
